@@ -298,6 +298,11 @@ const KNOWN_HEADS: &[&str] = &[
     "or", "when", "unless", "delay", "force", "apply", "eval", "map", "for-each", "call/cc", "list", "cons", "car", "cdr",
     "vector", "make-vector", "vector-ref", "vector-set!", "set-car!", "append", "reverse", "length", "display", "write", "error",
     "else", "=>", "memv", "equal?", "eq?", "eqv?", "list->vector", "vector->list", "vector-length", "string-length", "not",
+    "set-cdr!", "list-tail", "list-ref", "memq", "member", "assq", "assv", "assoc", "list?", "vector-fill!", "vector-copy",
+    "vector-copy!", "string-ref", "string-set!", "substring", "string-copy", "string-fill!", "string->list", "string->vector",
+    "vector->string", "list->string", "string", "make-string", "string-append", "string-upcase", "string-downcase",
+    "string-foldcase", "char->integer", "integer->char", "char-upcase", "char-downcase", "char-foldcase", "string=?", "string<?",
+    "string-ci=?", "char=?", "char<?", "char-ci=?", "char-alphabetic?", "char-numeric?", "char-whitespace?", "digit-value",
 ];
 
 /// sorted set of known keywords / procedures occurring anywhere in the forms
